@@ -14,14 +14,15 @@ import (
 )
 
 type gen struct {
-	pFault float64
-	im     *impl
-	rng    *rand.Rand
-	lines  []string
-	outs   []string
-	feat   map[string]bool
-	snapN  int
-	adds   []*pendingAdd // AddReplica calls that are inside factory.Create
+	pFault    float64
+	im        *impl
+	rng       *rand.Rand
+	lines     []string
+	outs      []string
+	feat      map[string]bool
+	snapN     int
+	adds      []*pendingAdd // AddReplica calls that are inside factory.Create
+	unaligned bool
 }
 
 type pendingAdd struct {
@@ -192,11 +193,16 @@ func (g *gen) doReg() {
 	}
 	err := im.c.RegisterReplica(types.RegReplica{Address: h, UUID: uuid, RevCount: int64(rev), RepType: "", RepState: st})
 	g.rep(h).Rev = int64(rev)
+	// the winner of the election loop is MaxRevReplica; only when the signal to it failed has it been
+	// cleared, and then the target of that (last) signal was the winner.  (A signal may also have gone
+	// to the previous leader registering again, before the loop ran.)
 	el := im.c.MaxRevReplica
-	for _, sg := range im.w.Signals { // a failed signal clears MaxRevReplica: the target was the winner
-		p := strings.Split(sg, ":")
-		if len(p) >= 2 && p[1] == "start" {
-			el = p[0]
+	if el == "" {
+		for _, sg := range im.w.Signals {
+			p := strings.Split(sg, ":")
+			if len(p) >= 2 && p[1] == "start" {
+				el = p[0]
+			}
 		}
 	}
 	if el == "" {
@@ -573,12 +579,36 @@ func (g *gen) doIO(kind string) {
 		if g.rng.Float64() < 0.06 && im.c.GetSize() > 4096 && im.c.GetSize() < 1<<40 {
 			off = int(im.c.GetSize()) - 2048 // straddles the end
 		}
+		if g.unaligned || g.rng.Float64() < 0.4 {
+			// not block aligned: while a WO replica is attached the controller completes the
+			// request from the RW replicas first
+			off = 4096*g.rng.Intn(8) + 512*g.rng.Intn(8)
+			n = 512 * (1 + g.rng.Intn(20))
+			if g.rng.Float64() < 0.15 && im.c.GetSize() > 8192 && im.c.GetSize() < 1<<40 {
+				off = int(im.c.GetSize()) - 512*(1+g.rng.Intn(12)) // ends at (or is cut by) the volume end
+				n = int(im.c.GetSize()) - off
+			}
+			g.pickFailsKeep(g.rwBackends(), "ReadAt", 0.75)
+			g.feat["w-unaligned"] = true
+		}
+		im.w.ResetLog()
 		k, err := im.c.WriteAt(make([]byte, n), int64(off))
 		res = classify(err, "Mode: ReadOnly", "EOF:")
 		if err == nil && k != n {
 			res = "failed"
 		}
-		g.emit(fmt.Sprintf("w %d %d | %s", off, n, orDash(fails)), res)
+		var tried []string
+		for _, a := range im.w.Answers {
+			if strings.HasPrefix(a, "read:") {
+				kv := strings.TrimPrefix(a, "read:")
+				i := strings.LastIndex(kv, "=")
+				tried = append(tried, kv[:i]+"="+kv[i+1:])
+			}
+		}
+		if len(tried) > 0 {
+			g.feat["w-widened"] = true
+		}
+		g.emit(fmt.Sprintf("w %d %d | %s | %s", off, n, orDash(fails), orDash(tried)), res)
 	case "sync":
 		_, err := im.c.Sync()
 		g.emit("sync | "+orDash(fails), classify(err, "Mode: ReadOnly"))
@@ -838,6 +868,17 @@ func generate(rng *rand.Rand, steps int, profile string, hosts []string) ([]stri
 			g.doResize()
 		case "mon":
 			g.doMon(false)
+		}
+		// a rebuild is running and the volume is writable: sub-block writes are widened by the controller
+		if !im.c.ReadOnly && rng.Float64() < 0.5 {
+			for _, r := range g.replicas() {
+				if r.Mode == types.WO {
+					g.unaligned = true
+					g.doIO("w")
+					g.unaligned = false
+					break
+				}
+			}
 		}
 		// monitors of closed / ERR-marked backends fire by themselves; do that promptly most of the time
 		for rng.Float64() < 0.8 && g.doMon(true) {
